@@ -185,26 +185,26 @@ func mintRoutePairing(c *Ctx) {
 		n++
 		key := fn(f)
 		isMint := func(in ssa.Instruction) bool { return in == me.Site }
-		isSend := callReaching(c, f, func(e ir.Effect) bool { return e.Method == "SendCoinsFromModuleToAccount" })
-		isDeleg := callReaching(c, f, func(e ir.Effect) bool { return e.Method == "DelegateCoinsFromAccountToModule" })
-		isIncL := callReaching(c, f, func(e ir.Effect) bool { return e.Kind == "StoreWrite" && e.Section == secLocked })
-		isIncT := callReaching(c, f, func(e ir.Effect) bool { return e.Kind == "StoreWrite" && e.Section == secTotLocked })
-		// the only success path that skips the steps is the zero-amount early return
-		zeroEdges := w.EstablishedEdges(f, func(p ir.Pred) bool {
-			return p.Pol && p.E.Op == "call" && strings.HasSuffix(p.E.Name, ".IsZero")
-		}, 0)
+		// asked on the flat (call-expanded) view: a step counts where the bank / store call itself stands,
+		// whether in this function, in a wrapper, or inlined
+		isSend := directSites(c, func(e ir.Effect) bool { return e.Method == "SendCoinsFromModuleToAccount" })
+		isDeleg := directSites(c, func(e ir.Effect) bool { return e.Method == "DelegateCoinsFromAccountToModule" })
+		isIncL := directSites(c, func(e ir.Effect) bool { return e.Kind == "StoreWrite" && e.Section == secLocked })
+		isIncT := directSites(c, func(e ir.Effect) bool { return e.Kind == "StoreWrite" && e.Section == secTotLocked })
+		// the only success paths that skip the steps are those on which the amount is zero / the coin set empty
+		zero := func(p ir.Pred) bool {
+			return p.Pol && p.E.Op == "call" && (strings.HasSuffix(p.E.Name, ".IsZero") || strings.HasSuffix(p.E.Name, "types.Coins).Empty"))
+		}
 		steps := []struct {
 			name string
 			is   func(ssa.Instruction) bool
 		}{{"MintCoins", isMint}, {"SendCoinsFromModuleToAccount", isSend}, {"DelegateCoinsFromAccountToModule", isDeleg}, {"locked[recipient] += amount", isIncL}, {"total locked += amount", isIncT}}
 		for _, s := range steps {
-			bad := w.MustPass(f, s.is, zeroEdges)
+			bad := w.FlatMustPassM(f, s.is, zero)
 			r.Require(len(bad) == 0, "A3.mint-route-pairing", key+"|must|"+s.name, pos(c, me.Site), "every successful, non-zero mint performs "+s.name, fmt.Sprintf("%d success return(s) reachable without it", len(bad)))
 		}
 		for i := 0; i+1 < len(steps)-1; i++ {
-			for _, b := range findInstrs(f, steps[i+1].is) {
-				r.Require(ir.Precedes(f, steps[i].is, b, nil), "A3.mint-route-pairing", key+"|order|"+steps[i].name+"<"+steps[i+1].name, pos(c, b), steps[i].name+" precedes "+steps[i+1].name+" on every path", "a path reaches the later step without the earlier one")
-			}
+			r.Require(w.FlatPrecedesM(f, steps[i].is, steps[i+1].is, zero), "A3.mint-route-pairing", key+"|order|"+steps[i].name+"<"+steps[i+1].name, pos(c, me.Site), steps[i].name+" precedes "+steps[i+1].name+" on every path", "a path reaches the later step without the earlier one")
 		}
 		// one coin origin and one recipient throughout
 		coins := w.ExprOf(me.Call.Common().Args[2]).String()
@@ -257,10 +257,11 @@ func unlockPairing(c *Ctx) {
 		if !c.Rooted(f) {
 			continue
 		}
-		n++
 		key := fmt.Sprintf("%s|undelegate%d", fn(f), i)
 		x := w.ExprOf(ue.Call.Common().Args[3])
-		who := w.ExprOf(ue.Call.Common().Args[2]).String()
+		whoE := w.ExprOf(ue.Call.Common().Args[2])
+		// one unlock site per way the undelegated amount is instantiated by the callers (a helper shared by both branches counts twice)
+		n += len(w.OriginsUp(f, x, 4))
 		isDec := callReaching(c, f, func(e ir.Effect) bool { return e.Kind == "StoreWrite" && e.Section == secLocked })
 		isSpent := callReaching(c, f, func(e ir.Effect) bool { return e.Kind == "StoreWrite" && e.Section == secSpent })
 		// after the undelegate, every success return passes a decrement and a spent increment
@@ -290,10 +291,23 @@ func unlockPairing(c *Ctx) {
 				if len(args) < 3 {
 					continue
 				}
-				addr := w.ExprOf(args[len(args)-2]).String()
+				addrE := w.ExprOf(args[len(args)-2])
 				amt := w.ExprOf(args[len(args)-1])
-				okAmt := amountMatches(c, amt, x)
-				r.Require(addr == who && okAmt, "A3.unlock-pairing", key+"|amount|"+siteName(c, in), pos(c, in), "the books are adjusted for the same account and by the undelegated amount (or its fee-denomination part)", fmt.Sprintf("undelegated %s to %s; booked %s for %s", x, who, amt, addr))
+				// judged in the callers' terms: lift the four expressions together along every call chain
+				tup := &ir.Expr{Op: "tuple", Args: []*ir.Expr{x, amt, whoE, addrE}}
+				okAll, detail := true, ""
+				for _, up := range w.OriginsUp(f, tup, 4) {
+					if up.E.Op != "tuple" || len(up.E.Args) != 4 {
+						okAll, detail = false, "cannot instantiate the amounts at the callers"
+						break
+					}
+					ux, uamt, uwho, uaddr := up.E.Args[0], up.E.Args[1], up.E.Args[2], up.E.Args[3]
+					if !(uaddr.String() == uwho.String() && amountMatches(c, uamt, ux)) {
+						okAll = false
+						detail = fmt.Sprintf("undelegated %s to %s; booked %s for %s (in %s)", ux, uwho, uamt, uaddr, fn(up.Top))
+					}
+				}
+				r.Require(okAll, "A3.unlock-pairing", key+"|amount|"+siteName(c, in), pos(c, in), "the books are adjusted for the same account and by the undelegated amount (or its fee-denomination part)", detail)
 			}
 		}
 	}
@@ -304,7 +318,7 @@ func unlockPairing(c *Ctx) {
 	pairs := [][2]string{{secLocked, secTotLocked}, {secSpent, secTotSpent}}
 	np := 0
 	for _, f := range w.Funcs {
-		if w.IsGenerated(f) || ir.IsFixture(f) || !c.Rooted(f) || ir.ModuleOf(f) != "enterprise" || strings.Contains(fn(f), "InitGenesis") {
+		if w.IsGenerated(f) || ir.IsFixture(f) || !c.Rooted(f) || ir.ModuleOf(f) != "enterprise" || genesisFuncs(c, "INITGEN", "enterprise")[f] {
 			continue
 		}
 		for _, p := range pairs {
@@ -501,7 +515,7 @@ func genesisBalance(c *Ctx, module string) {
 					}
 				}
 			}
-			if !reads || !strings.Contains(fn(f), "InitGenesis") {
+			if !reads || !genesisFuncs(c, "INITGEN", module)[f] {
 				continue
 			}
 			n++
@@ -523,7 +537,10 @@ func genesisBalance(c *Ctx, module string) {
 					// stream: Σ of imported deposits accumulated in a loop
 					return x.Any(func(z *ir.Expr) bool { return z.Op == "field" && z.Name == "Deposit" }) && !x.Any(func(z *ir.Expr) bool { return z.Op == "call" && strings.HasSuffix(z.Name, ".GetAllBalances") })
 				}
-				return isBal(a) && isHold(b) || isBal(b) && isHold(a)
+				// the comparison may sit in a helper that is handed the holdings: judge them as the callers instantiate them
+				isHoldL := func(x *ir.Expr) bool { return isHold(x) || liftAll(c, f, x, func(y *ir.Expr) bool { return isHold(w.Expand(y, 3)) }) }
+				isBalL := func(x *ir.Expr) bool { return isBal(x) || liftAll(c, f, x, func(y *ir.Expr) bool { return isBal(w.Expand(y, 3)) }) }
+				return isBalL(a) && isHoldL(b) || isBalL(b) && isHoldL(a)
 			}
 			for i, ret := range ir.Returns(f) {
 				g := w.Guarded(f, ret, m, 1)
